@@ -59,6 +59,9 @@ pub enum Ev {
 #[derive(Debug)]
 pub enum Stop {
     Trap(Trap),
+    /// an exception (tag without parameters) travelling up to the nearest matching `try_table`;
+    /// converted to `Trap::Exception` when it leaves the outermost frame
+    Thrown(u32),
     /// step cap / unsupported instruction: the run is discarded (never a violation)
     Cap,
     Harness(String),
@@ -90,10 +93,32 @@ pub struct Instance<'a> {
 #[derive(Clone, Copy)]
 struct Label {
     is_loop: bool,
+    /// a `try_table` frame (its catch clauses are read from the instruction at `start`)
+    is_try: bool,
     start: usize,
     end: usize,
     height: usize,
     arity: usize,
+}
+
+/// Relative depth of the label a `throw` of `tag` inside the current frame branches to, if one of the
+/// enclosing `try_table`s of this frame catches it (innermost first; clause labels are relative to the
+/// context enclosing the `try_table`).
+fn handler_depth(body: &[Ins], labels: &[Label], tag: u32) -> Option<u32> {
+    for i in (1..labels.len()).rev() {
+        if !labels[i].is_try {
+            continue;
+        }
+        if let Ins::TryTable(_, catches) = &body[labels[i].start] {
+            for (t, l) in catches {
+                if t.is_none() || *t == Some(tag) {
+                    let target = (i - 1).checked_sub(*l as usize)?;
+                    return Some((labels.len() - 1 - target) as u32);
+                }
+            }
+        }
+    }
+    None
 }
 
 fn build_ctrl(body: &[Ins]) -> Result<Vec<(usize, Option<usize>, usize)>, String> {
@@ -101,7 +126,7 @@ fn build_ctrl(body: &[Ins]) -> Result<Vec<(usize, Option<usize>, usize)>, String
     let mut stack: Vec<usize> = vec![];
     for (i, ins) in body.iter().enumerate() {
         match ins {
-            Ins::Block(_) | Ins::Loop(_) | Ins::If(_) => {
+            Ins::Block(_) | Ins::Loop(_) | Ins::If(_) | Ins::TryTable(..) => {
                 stack.push(v.len());
                 v.push((i, None, usize::MAX));
             }
@@ -249,9 +274,14 @@ impl<'a> Instance<'a> {
         let func = self.m.funcs.get(li).ok_or_else(|| Stop::Harness(format!("call to unknown function {f}")))?;
         let magic = func_magic_of(&func.body).unwrap_or(-(li as i64) - 1);
         self.host.trace.push(Ev::Enter(magic));
-        let r = self.run_body(li, args, depth);
+        let mut r = self.run_body(li, args, depth);
+        if let (Err(Stop::Thrown(_)), 0) = (&r, depth) {
+            // nobody caught it
+            r = Err(Stop::Trap(Trap::Exception));
+        }
         match &r {
             Ok(_) => self.host.trace.push(Ev::Leave(magic, LeaveHow::Normal)),
+            Err(Stop::Thrown(_)) => self.host.trace.push(Ev::Leave(magic, LeaveHow::Trap(Trap::Exception))),
             Err(Stop::Trap(t)) => self.host.trace.push(Ev::Leave(magic, LeaveHow::Trap(t.clone()))),
             _ => {}
         }
@@ -272,6 +302,7 @@ impl<'a> Instance<'a> {
         let mut stack: Vec<Val> = vec![];
         let mut labels: Vec<Label> = vec![Label {
             is_loop: false,
+            is_try: false,
             start: 0,
             end: body.len() - 1,
             height: 0,
@@ -313,7 +344,22 @@ impl<'a> Instance<'a> {
             match ins {
                 Ins::Nop => {}
                 Ins::Unreachable => return Err(Stop::Trap(Trap::Unreachable)),
-                Ins::Throw(_) => return Err(Stop::Trap(Trap::Exception)),
+                Ins::Throw(t) => match handler_depth(body, &labels, *t) {
+                    Some(d) => branch_to = Some(d),
+                    None => return Err(Stop::Thrown(*t)),
+                },
+                Ins::TryTable(bt, _) => {
+                    let (p, r) = self.bt_arity(*bt).map_err(Stop::Harness)?;
+                    let c = self.ctrl[li].iter().find(|c| c.0 == pc).ok_or_else(|| Stop::Harness("ctrl".into()))?;
+                    labels.push(Label {
+                        is_loop: false,
+                        is_try: true,
+                        start: pc,
+                        end: c.2,
+                        height: stack.len() - p,
+                        arity: r,
+                    });
+                }
                 Ins::Drop => {
                     pop!();
                 }
@@ -332,6 +378,7 @@ impl<'a> Instance<'a> {
                     let is_loop = matches!(ins, Ins::Loop(_));
                     labels.push(Label {
                         is_loop,
+                        is_try: false,
                         start: pc,
                         end: c.2,
                         height: stack.len() - p,
@@ -344,6 +391,7 @@ impl<'a> Instance<'a> {
                     let c = *self.ctrl[li].iter().find(|c| c.0 == pc).ok_or_else(|| Stop::Harness("ctrl".into()))?;
                     labels.push(Label {
                         is_loop: false,
+                        is_try: false,
                         start: pc,
                         end: c.2,
                         height: stack.len() - p,
@@ -413,8 +461,15 @@ impl<'a> Instance<'a> {
                         return Err(Stop::Harness("call args".into()));
                     }
                     let args = stack.split_off(stack.len() - p.len());
-                    let r = self.call(*f, args, depth + 1)?;
-                    stack.extend(r);
+                    match self.call(*f, args, depth + 1) {
+                        Ok(r) => stack.extend(r),
+                        // an exception coming out of the callee: caught here or passed on
+                        Err(Stop::Thrown(t)) => match handler_depth(body, &labels, t) {
+                            Some(d) => branch_to = Some(d),
+                            None => return Err(Stop::Thrown(t)),
+                        },
+                        Err(e) => return Err(e),
+                    }
                 }
                 Ins::ReturnCall(f) => {
                     let ty = m.func_type_of(*f).ok_or_else(|| Stop::Harness("call target".into()))?;
@@ -881,5 +936,41 @@ pub fn selftest() -> Result<(), String> {
     );
     expect("br_on non-null", run(&w7, "f", vec![Val::I32(1)], vec![]), Ok(vec![Val::I32(9)]), vec![1, 2])?;
     expect("br_on null", run(&w7, "f", vec![Val::I32(0)], vec![]), Ok(vec![Val::I32(9)]), vec![])?;
+    // exceptions: throw caught by the enclosing try_table (catch / catch_all), by a try_table of the
+    // caller, by an outer try_table when the inner one names another tag, and not at all
+    let w8 = format!(
+        r#"(module {imports} (tag $t) (tag $u)
+        (func $thrower (param i32)
+          (call $mark (i32.const 50))
+          (if (local.get 0) (then (throw $t)))
+          (call $mark (i32.const 51)))
+        (func (export "f") (param i32) (result i32)
+          (block $c
+            (try_table (catch $t $c)
+              (call $mark (i32.const 1))
+              (if (i32.eq (local.get 0) (i32.const 1)) (then (throw $t)))
+              (call $mark (i32.const 2))))
+          (call $mark (i32.const 3))
+          (block $d
+            (try_table (catch_all $d)
+              (call $thrower (i32.eq (local.get 0) (i32.const 2)))
+              (call $mark (i32.const 4))))
+          (call $mark (i32.const 5))
+          (block $e
+            (try_table (catch $t $e)
+              (block $f
+                (try_table (catch $u $f)
+                  (if (i32.eq (local.get 0) (i32.const 3)) (then (throw $t)))
+                  (call $mark (i32.const 6))))
+              (call $mark (i32.const 7))))
+          (call $mark (i32.const 8))
+          (if (i32.eq (local.get 0) (i32.const 4)) (then (throw $u)))
+          (i32.const 77)))"#
+    );
+    expect("no throw", run(&w8, "f", vec![Val::I32(0)], vec![]), Ok(vec![Val::I32(77)]), vec![1, 2, 3, 50, 51, 4, 5, 6, 7, 8])?;
+    expect("caught by own try_table", run(&w8, "f", vec![Val::I32(1)], vec![]), Ok(vec![Val::I32(77)]), vec![1, 3, 50, 51, 4, 5, 6, 7, 8])?;
+    expect("callee throws, caller catches", run(&w8, "f", vec![Val::I32(2)], vec![]), Ok(vec![Val::I32(77)]), vec![1, 2, 3, 50, 5, 6, 7, 8])?;
+    expect("inner tag differs, outer catches", run(&w8, "f", vec![Val::I32(3)], vec![]), Ok(vec![Val::I32(77)]), vec![1, 2, 3, 50, 51, 4, 5, 8])?;
+    expect("uncaught", run(&w8, "f", vec![Val::I32(4)], vec![]), Err(Trap::Exception), vec![1, 2, 3, 50, 51, 4, 5, 6, 7, 8])?;
     Ok(())
 }
